@@ -43,6 +43,12 @@ func (e *Engine) initExternals() {
 		"strconv.FormatFloat": strconv.FormatFloat, "strconv.Quote": strconv.Quote, "strconv.Unquote": strconv.Unquote,
 		"unicode/utf8.RuneCountInString": utf8.RuneCountInString, "unicode/utf8.ValidString": utf8.ValidString,
 		"unicode/utf8.RuneLen": utf8.RuneLen, "unicode/utf8.RuneCount": utf8.RuneCount,
+		"unicode/utf8.DecodeRuneInString": utf8.DecodeRuneInString, "unicode/utf8.DecodeRune": utf8.DecodeRune,
+		"unicode/utf8.DecodeLastRuneInString": utf8.DecodeLastRuneInString, "unicode/utf8.DecodeLastRune": utf8.DecodeLastRune,
+		"unicode/utf8.ValidRune": utf8.ValidRune, "unicode/utf8.Valid": utf8.Valid, "unicode/utf8.FullRune": utf8.FullRune,
+		"unicode/utf8.FullRuneInString": utf8.FullRuneInString, "unicode/utf8.AppendRune": utf8.AppendRune,
+		"unicode.IsPrint": unicode.IsPrint, "unicode.IsPunct": unicode.IsPunct, "unicode.IsControl": unicode.IsControl,
+		"unicode.IsGraphic": unicode.IsGraphic, "unicode.IsNumber": unicode.IsNumber, "unicode.IsTitle": unicode.IsTitle, "unicode.ToTitle": unicode.ToTitle,
 		"unicode.IsSpace": unicode.IsSpace, "unicode.IsDigit": unicode.IsDigit, "unicode.IsLetter": unicode.IsLetter,
 		"unicode.IsUpper": unicode.IsUpper, "unicode.IsLower": unicode.IsLower, "unicode.ToLower": unicode.ToLower, "unicode.ToUpper": unicode.ToUpper,
 		"math.Pow": math.Pow, "math.Abs": math.Abs, "math.Floor": math.Floor, "math.Ceil": math.Ceil, "math.Trunc": math.Trunc,
@@ -57,6 +63,7 @@ func (e *Engine) initExternals() {
 	e.initStringModels()
 	e.initSyncExternals()
 	e.initMiscExternals()
+	e.initProtoExternals()
 
 	e.extPrefix = append(e.extPrefix,
 		prefixExt{"github.com/sirupsen/logrus.", e.noopExternal},
